@@ -278,6 +278,19 @@ Proof.
   exact L.
 Qed.
 
+Lemma jump_matrix_eq f0 g0 delta d' t00 t01 t10 t11 : 0 <= f0 < P62 -> 0 <= g0 < P62 ->
+  (Z.odd f0 = true \/ (0 < delta /\ Z.odd g0 = true)) -> Z.abs delta + 62 <= P62 ->
+  jump f0 g0 delta = (d', (t00, t01, t10, t11)) ->
+  exists f' g',
+    t00 * f0 + t01 * g0 = P62 * f' /\ t10 * f0 + t11 * g0 = P62 * g' /\
+    Z.abs t00 + Z.abs t01 <= P62 /\ Z.abs t10 + Z.abs t11 <= P62 /\
+    t00 * t11 - t01 * t10 = P62 /\
+    Z.even t00 = true /\ Z.even t01 = true /\ Z.odd f' = true /\
+    Z.abs d' <= Z.abs delta + 62.
+Proof.
+  intros Hf Hg Ho Hd E. pose proof (jump_matrix f0 g0 delta Hf Hg Ho Hd) as JP. rewrite E in JP. exact JP.
+Qed.
+
 (** g0 = 0: the jump is the identity on (f, g) whatever f0 is (used for gcd(x, 0), gcd(0, 0) and after convergence) *)
 Lemma jump_loop_g0 fuel steps delta f t00 t01 t10 t11 : 0 <= steps ->
   jump_loop (S fuel) steps delta f 0 (t00, t01, t10, t11) =
